@@ -219,6 +219,14 @@ fn section_address<'data, P: Platform>(
     Ok(section_layouts.get(id).mem_offset)
 }
 
+/// Verification hook (feature `verif`): the real evaluator with an empty layout context.
+#[cfg(feature = "verif")]
+pub(crate) fn verif_evaluate_expression(expr: &Expression<'_>) -> Result<u64> {
+    let sections = OutputSections::<crate::elf::Elf>::with_base_address(0);
+    let layouts = sections.new_section_map::<OutputRecordLayout>();
+    evaluate_expression::<crate::elf::Elf>(expr, &layouts, &sections, &|_| {}, &[])
+}
+
 #[cfg(test)]
 mod tests {
     use super::*;
